@@ -2678,9 +2678,13 @@ class Processor:
         # Anchor throughout the parsed data structure.
         def recurse(data, parent, parentref, reference_node, replacement_node):
             if isinstance(data, (CommentedMap, ryod)):
+                # Keys of parsed YAML are renamed only when they are the very
+                # (anchored) object being replaced; short plain strings are
+                # shared by the interpreter, not by the document.
                 for i, k in [
                         (idx, key) for idx, key in enumerate(data.keys())
                         if key is reference_node
+                        and hasattr(key, "anchor")
                 ]:
                     data.insert(i, replacement_node, data.pop(k))
                 for k, val in data.non_merged_items():
